@@ -1,0 +1,34 @@
+//! Verification hooks, compiled only with the cargo feature `verif-hooks`.
+//!
+//! The library calls [`yield_point`] at interesting places (e.g. immediately before a lock
+//! acquisition). Unless the *calling thread* has installed a callback with [`install`], the
+//! call does nothing. A test scheduler installs a callback per worker thread to decide which
+//! thread may proceed, which makes thread interleavings enumerable and replayable.
+
+use std::cell::RefCell;
+use std::sync::Arc;
+
+/// Callback type invoked at every yield point of the installing thread
+pub type YieldCallback = Arc<dyn Fn(&'static str) + Send + Sync + 'static>;
+
+thread_local! {
+    static CALLBACK: RefCell<Option<YieldCallback>> = const { RefCell::new(None) };
+}
+
+/// Installs `callback` for the current thread, replacing any previous one
+pub fn install(callback: YieldCallback) {
+    CALLBACK.with(|slot| *slot.borrow_mut() = Some(callback));
+}
+
+/// Removes the current thread's callback
+pub fn uninstall() {
+    CALLBACK.with(|slot| *slot.borrow_mut() = None);
+}
+
+/// Called by the library at a yield point named `label`; no-op without an installed callback
+pub fn yield_point(label: &'static str) {
+    let callback = CALLBACK.with(|slot| slot.borrow().clone());
+    if let Some(callback) = callback {
+        callback(label);
+    }
+}
